@@ -182,3 +182,51 @@ var connVariant = func() string {
 	}
 	return "fixed"
 }()
+
+// confirmed runs one forced scenario; if it records a direct failure the same
+// scenario (same random choices) is run once more and only a failure that
+// shows again is kept.  Forced schedules are deterministic, so a defect
+// reproduces; a hiccup of a heavily loaded machine (a goroutine not scheduled
+// for a second while "promptly" is being measured) does not.
+func confirmed(r *Run, scenario func()) {
+	rng := *r.Rng
+	nFail, nCase, nEval := len(r.Failures), len(r.caseExprs), r.Evaluations
+	seen := map[string]int{}
+	for k, v := range r.failSeen {
+		seen[k] = v
+	}
+	scenario()
+	if sameCounts(seen, r.failSeen) {
+		return
+	}
+	first := append([]Failure(nil), r.Failures[nFail:]...)
+	// roll back and run again
+	*r.Rng = rng
+	r.Failures = r.Failures[:nFail]
+	r.caseExprs, r.caseDescs = r.caseExprs[:nCase], r.caseDescs[:nCase]
+	r.Evaluations = nEval
+	r.failSeen = map[string]int{}
+	for k, v := range seen {
+		r.failSeen[k] = v
+	}
+	scenario()
+	if sameCounts(seen, r.failSeen) {
+		cls := ""
+		if len(first) > 0 {
+			cls = first[0].Class + ": " + head(first[0].Observed, 160)
+		}
+		r.Notes = append(r.Notes, "a failure did not reproduce on the immediate re-run of the same schedule (machine load?): "+cls)
+	}
+}
+
+func sameCounts(a, b map[string]int) bool {
+	if len(a) != len(b) {
+		return false
+	}
+	for k, v := range a {
+		if b[k] != v {
+			return false
+		}
+	}
+	return true
+}
